@@ -145,7 +145,15 @@ SUFFIXES = ("attr", "data", "constraints", "dt", "duration", "inclusive", "point
 class FinImpl:
     """A Module whose tensor attributes are created / unbound / dropped; explicit gc.collect()."""
 
+    _frozen = False
+
     def __init__(self, hdr: dict):
+        if not FinImpl._frozen:
+            # every operation below ends with gc.collect(): keep the (large, immortal) heap of the harness, torch and
+            # the parsed graphs out of those collections
+            gc.collect()
+            gc.freeze()
+            FinImpl._frozen = True
         self.hdr = dict(hdr)
         self.names = sorted(hdr["names"])
         self.param = bool(hdr.get("param", False))
